@@ -420,10 +420,48 @@ def run_vqe_case(c):
     qn = fermion_to_qubit_mapping(fermion_operator=nop, **kw)
     n_mean = op_expectation(qn, sv, nq, msb, cache).real
     n_sq = op_expectation(qn * qn, sv, nq, msb, cache).real
+    terms_copy = dict(fh.terms)
     core, h1, g1 = mol.get_active_space_integrals()
     return {"mol": mol, "nso": nso, "nq": nq, "r1s": r1s, "r2s": r2s, "r1": r1, "r2": r2, "e_rdm": e_rdm, "e_direct": e_direct,
             "evs": evs, "n_mean": n_mean, "n_var": n_sq - n_mean ** 2, "core": core, "h1": h1, "g1": g1, "inputs_kept": inputs_kept,
-            "n_terms": len(evs), "n_params": len(params), "e_est": e_est}
+            "n_terms": len(evs), "n_params": len(params), "e_est": e_est, "terms": terms_copy, "nn1": n_sq - n_mean}
+
+
+def spin_orbital_energy(terms, r1s, r2s):
+    """<H> from the SPIN-ORBITAL matrices in the documented convention rdm1[i,j] = <a+_i a_j>, rdm2[i,l,j,k] = <a+_i a+_j a_k a_l>:
+    constant + sum over the Hamiltonian's own terms of coefficient * matrix element (independent of the spin-summation code)"""
+    e = 0.0
+    for key, coef in terms.items():
+        if len(key) == 0:
+            e += coef
+        elif len(key) == 2:
+            e += coef * r1s[key[0][0], key[1][0]]
+        else:
+            i, j, k, l = (x[0] for x in key)
+            e += coef * r2s[i, l, j, k]
+    return complex(e)
+
+
+def spin_resolved_oracles(ck, sigbase, label, rep, terms, r1s, r2s, e_ref, n_mean, nn1_mean, n_var, sym, tol=1e-7):
+    """get_rdm(..., sum_spin=False): energy from the spin-orbital matrices = energy of the state; when every Coulomb-type term
+    a+_p a+_q a_q a_p is among the measured terms: trace sum_pq D2[p,p,q,q] = <N(N-1)> and, for a number-conserving state, the diagonal of
+    the partial trace sum_q D2[p,p,q,q] = (N-1) D1[p,p]; pair symmetry D2[p,q,r,s] = D2[r,s,p,q] of the documented convention."""
+    nso = r1s.shape[0]
+    e = spin_orbital_energy(terms, r1s, r2s)
+    if abs(e.real - e_ref) > tol:
+        ck.violation(sigbase + "/spin-resolved-energy", "%s: energy from the spin-orbital RDMs (rdm2[i,l,j,k] = <i+ j+ k l>) %.9f, energy of the state %.9f"
+                     % (label, e.real, e_ref), rep, found_input=True)
+    coulomb = all((((p, 1), (q, 1), (q, 0), (p, 0)) in terms) for p in range(nso) for q in range(nso) if p != q)
+    if coulomb:
+        t2 = np.einsum("ppqq->", r2s)
+        if abs(t2 - nn1_mean) > 1e-6:
+            ck.violation(sigbase + "/spin-resolved-trace-2rdm", "%s: sum_pq rdm2[p,p,q,q] = %.6f, <N(N-1)> = %.6f" % (label, t2.real, nn1_mean), rep, found_input=True)
+        if abs(n_var) < 1e-9:
+            pt = np.einsum("ppqq->p", r2s)
+            if np.abs(pt - (n_mean - 1) * np.diag(r1s)).max() > 1e-6:
+                ck.violation(sigbase + "/spin-resolved-partial-trace", "%s: sum_q rdm2[p,p,q,q] != (N-1) rdm1[p,p] for a state with N = %.3f" % (label, n_mean), rep, found_input=True)
+    if sym and np.abs(r2s - r2s.transpose(2, 3, 0, 1)).max() > 1e-7:
+        ck.violation(sigbase + "/spin-resolved-pair-symmetry", "%s: rdm2[p,q,r,s] != rdm2[r,s,p,q]" % label, rep, found_input=True)
 
 
 def vqe_oracles(ck, c, r):
@@ -461,6 +499,8 @@ def vqe_oracles(ck, c, r):
             if abs(np.trace(a) - ne) > tol:
                 ck.violation("C13/get_rdm/trace-reference/%s/%s/%s" % (nm, tag, c.get("shell", "")), "reference determinant with %d active electrons: the %s "
                              "1-RDM traces to %s" % (ne, nm, np.trace(a)), rep, found_input=True)
+    spin_resolved_oracles(ck, "C13/get_rdm/%s%s" % (cls, tag), "occ=%s frozen=%s %s" % (c["occ"], c["frozen"], c["mapping"]), rep, r["terms"],
+                          r["r1s"], r["r2s"], r["e_direct"], r["n_mean"], r["nn1"], r["n_var"], c["sym"], tol)
     if not r["inputs_kept"]:
         ck.violation("C13/energy_from_rdms/inputs-mutated", "SecondQuantizedMolecule.energy_from_rdms changed the arrays passed in", rep, found_input=True)
 
@@ -682,6 +722,9 @@ def check_get_rdm_uhf(ck, mol, v, params, mapping, utd, rep, label):
                 ck.violation(uhf_signature(mol, mapping, "trace", rs) or "C13/get_rdm_uhf/trace-%s/%s" % (k, tag),
                              "%s: 2-RDM block trace %s = %.9f, expected %.9f" % (label, k, float(np.real(got)), ex[k]), rep, found_input=True)
     herm = max(np.abs(d1[0] - d1[0].T).max(), np.abs(d1[1] - d1[1].T).max(), max(np.abs(x - x.transpose(1, 0, 3, 2)).max() for x in d2))
+    if max(np.abs(d2[0] - d2[0].transpose(2, 3, 0, 1)).max(), np.abs(d2[2] - d2[2].transpose(2, 3, 0, 1)).max()) > 1e-7:
+        ck.violation(uhf_signature(mol, mapping, "pair-symmetry", rs) or "C13/get_rdm_uhf/pair-symmetry/%s" % tag,
+                     "%s: same-spin blocks violate D2[p,q,r,s] = D2[r,s,p,q]" % label, rep, found_input=True)
     if herm > 1e-7 and rep.get("sym", True):
         ck.violation(uhf_signature(mol, mapping, "hermiticity", rs) or "C13/get_rdm_uhf/hermiticity/%s" % tag,
                      "%s: spin blocks are not symmetric (real state): %.2e" % (label, herm), rep, found_input=True)
@@ -993,6 +1036,15 @@ def run_pyscf_get_rdm(ck):
                              % (name, mol.n_active_electrons, r["trace"]), rep, found_input=True)
             if r["herm"] > 1e-7:
                 ck.violation("C13/pyscf/get_rdm/hermiticity/%s/spin%d" % (mapping, spin), "%s: RDMs not Hermitian (%.2e)" % (name, r["herm"]), rep, found_input=True)
+            try:
+                v0 = r["solver"]
+                z = [0.0] * r["nq"]
+                r1s, r2s = v0.get_rdm(z, sum_spin=False)
+                n0 = mol.n_active_electrons
+                spin_resolved_oracles(ck, "C13/pyscf/get_rdm/%s/spin%d/reference" % (mapping, spin), name + " (reference state)", rep,
+                                      dict(mol.fermionic_hamiltonian.terms), np.array(r1s), np.array(r2s), mol.mf_energy, n0, n0 * (n0 - 1), 0.0, True)
+            except Exception as e:
+                ck.violation("C13/pyscf/get_rdm/crash-spin-resolved/%s/spin%d" % (mapping, spin), "%s: %r" % (name, e), rep, found_input=True)
             # non-zero parameter vector
             try:
                 v, nq = r["solver"], r["nq"]
@@ -1010,6 +1062,10 @@ def run_pyscf_get_rdm(ck):
                                  % (name, np.trace(d1).real, np.einsum("ppqq->", d2).real, ex["n"], ex["nn1"]), rep, found_input=True)
                 if max(np.abs(d1 - d1.conj().T).max(), np.abs(d2 - d2.conj().transpose(1, 0, 3, 2)).max()) > 1e-7:
                     ck.violation("C13/pyscf/get_rdm/hermiticity-nonzero-params/%s/spin%d" % (mapping, spin), "%s: RDMs not Hermitian" % name, rep, found_input=True)
+                r1s, r2s = v.get_rdm(list(params), sum_spin=False)
+                nvar = 0.0 if abs(round(ex["n"]) - ex["n"]) < 1e-9 and abs(ex["nn1"] - ex["n"] * (ex["n"] - 1)) < 1e-9 else 1.0
+                spin_resolved_oracles(ck, "C13/pyscf/get_rdm/%s/spin%d" % (mapping, spin), name, rep, dict(mol.fermionic_hamiltonian.terms),
+                                      np.array(r1s), np.array(r2s), ex["e"], ex["n"], ex["nn1"], nvar, True)
                 if mol.frozen_mos is not None:
                     pad_checks(ck, "C13/pyscf/get_rdm/%s" % mapping, name + "/vqe", dict(rep, pad=True), mol, ex["e"], d1.real, d2.real, 1e-7,
                                n_act=ex["n"], nn1_act=ex["nn1"])
